@@ -107,6 +107,8 @@ def parseCfg (toks : List String) : Option Cfg := do
   let rules ← (kvGet toks "rules").bind (parseList · ";" parseRule)
   let rejects ← (kvGet toks "rules").bind (parseList · ";" parseReject)
   let multi := kvGet toks "docs" == some "2"
+  -- `nsk`: a mapping with a key that is not a string somewhere in the file — no setting has such a key
+  let unk := unk || (kvGet toks "nsk").isSome
   pure { upstreams := ups, domainSets := dss, rules := rules, unknownKey := unk, rejects := rejects, multiDoc := multi }
 
 def run (case impl : String) : String × String :=
